@@ -55,12 +55,12 @@ def run(crate):
     return _cache[crate]
 
 
-def check(chk, crate, prop, rule):
+def check(chk, crate, prop, rule, only=None):
     """Evaluate the witnesses of `crate` that belong to property `prop`; violations under `rule`."""
     exp = expectations(crate)
     res, dep_failed, err = run(crate)
-    mine = {k: v for k, v in exp.items() if v["property"] == prop}
-    key = "witness:" + crate
+    mine = {k: v for k, v in exp.items() if v["property"] == prop and (only is None or k in only)}
+    key = "witness:" + crate + ("" if only is None else ":" + prop)
     chk.obligation(key, "%d type-level witnesses (%s)" % (len(mine), crate))
     ok = True
     if dep_failed:
